@@ -684,8 +684,16 @@ class LenClass:
                     (self.count_of(pos[1]) or TOP)
                 return ("ROWS", inner)
             return TOP
-        if short == "searchsorted" and len(pos) >= 2:
-            return self.of(pos[1])
+        if short in ("stack", "vstack", "array", "asarray") and pos and pos[0].op in ("Tuple", "List") and pos[0].args and \
+                not any(a.op == "Starred" for a in pos[0].args):
+            ax = kws.get("axis") or (pos[1] if short == "stack" and len(pos) > 1 else None)
+            if ax is None or (ax.op == "Const" and ax.attr == 0):
+                # k per-event vectors stacked along a new first axis: a k-by-events array (the event axis is the last)
+                cs = [self.of(a) for a in pos[0].args]
+                inner = self._joinall(pos[0].args, n)
+                if is_def(inner) and all(c == inner or c == S for c in cs):
+                    return ("ROWS", inner)
+                return inner if inner == S else TOP
         if short in ("subtract.outer", "add.outer", "multiply.outer", "outer") and pos:
             return self.of(pos[0])      # rows follow the first operand
         if short in ("arange",) and pos:
